@@ -10,11 +10,31 @@ src, dst = "/tmp/ag/%s/verif" % P, "/verif"
 SHARED = ("harness/mxh/struct_props.py", "harness/mxh/structworld.py", "harness/mxh/core.py", "harness/mxh/tables.py",
           "lean/MxModel/Generated/", "MANIFEST.json", "DESIGN.md", "tools/", "known_findings.json", "lean/Driver/Main.lean",
           "evidence/", "replays/", "lean/.lake", "deliver", "seeded/")
+def committed_somewhere(path, data):
+    """True when `data` is the content of `path` at /verif's HEAD or at an earlier commit: the builder's copy merely holds
+    a (possibly stale) version of MY file - e.g. after an rsync - and must never overwrite the current one"""
+    try:
+        revs = subprocess.run(["git", "log", "--format=%H", "-n", "40", "--", path], cwd=dst, capture_output=True,
+                              text=True).stdout.split()
+        for r in revs:
+            blob = subprocess.run(["git", "show", "%s:%s" % (r, path)], cwd=dst, capture_output=True).stdout
+            if blob == data:
+                return True
+    except Exception:
+        pass
+    return False
+
+
 out = subprocess.run("git status --porcelain", shell=True, cwd=src, capture_output=True, text=True).stdout
 for line in out.split("\n"):
     if not line.strip():
         continue
     st, path = line[:2], line[3:]
+    sp = os.path.join(src, path)
+    if os.path.isfile(sp) and os.path.exists(os.path.join(dst, path)) and committed_somewhere(path, open(sp, "rb").read()):
+        if open(sp, "rb").read() != open(os.path.join(dst, path), "rb").read():
+            print("skipped stale copy of my own file:", path)
+        continue
     if " -> " in path:
         old, path = path.split(" -> ")
         if os.path.exists(os.path.join(dst, old)):
